@@ -36,10 +36,10 @@ def viewCold (objs : List Op) : Option HostView := hostView (coldRun objs).c hos
 /-! ## the named scenarios of the property: every order is a good history, all end alike -/
 
 /-- endpoint before pod (and every other order of the three objects) -/
-example : AllGood {} [] [.svc svcA, .slice s1, .pod p1] := by decide +kernel
-example : AllGood {} [] [.slice s1, .svc svcA, .pod p1] := by decide +kernel
-example : AllGood {} [] [.slice s1, .pod p1, .svc svcA] := by decide +kernel
-example : AllGood {} [] [.pod p1, .slice s1, .svc svcA] := by decide +kernel
+example : AllGood {} [] [] [.svc svcA, .slice s1, .pod p1] := by decide +kernel
+example : AllGood {} [] [] [.slice s1, .svc svcA, .pod p1] := by decide +kernel
+example : AllGood {} [] [] [.slice s1, .pod p1, .svc svcA] := by decide +kernel
+example : AllGood {} [] [] [.pod p1, .slice s1, .svc svcA] := by decide +kernel
 
 theorem endpoint_before_pod_example :
     viewAfter [.svc svcA, .slice s1, .pod p1] = viewAfter [.svc svcA, .pod p1, .slice s1] ∧
@@ -62,7 +62,7 @@ theorem endpoint_before_unready_pod_example :
 
 /-- the side conditions of `convergence_to_derive` hold for this history, and `derive` gives literally
     the view of the ordered run -/
-example : WF (run {} [.slice s1, .pod p1, .svc svcA]).c ∧ staleRun {} [] [.slice s1, .pod p1, .svc svcA] = [] ∧
+example : WF (run {} [.slice s1, .pod p1, .svc svcA]).c ∧ staleRun {} [] [] [.slice s1, .pod p1, .svc svcA] = [] ∧
     NoPodAtUntargeted (run {} [.slice s1, .pod p1, .svc svcA]).c ∧ (run {} [.slice s1, .pod p1, .svc svcA]).c.slices.Nodup := by
   decide +kernel
 
@@ -82,8 +82,8 @@ theorem pod_before_service_example :
 def p2r : Pod := pod "p2" "10.0.0.1" true [("app", "a")] "sa2" ""
 def s1r : Slice := sliceOf "a-s1" [ep "10.0.0.1" true false "p2"]
 
-example : AllGood {} [] [.svc svcA, .pod p1, .slice s1, .slice s1r, .pod p2r, .delPod "n1" "p1"] := by decide +kernel
-example : AllGood {} [] [.svc svcA, .pod p1, .slice s1, .slice (sliceOf "a-s1" []), .delPod "n1" "p1", .pod p2r, .slice s1r] := by
+example : AllGood {} [] [] [.svc svcA, .pod p1, .slice s1, .slice s1r, .pod p2r, .delPod "n1" "p1"] := by decide +kernel
+example : AllGood {} [] [] [.svc svcA, .pod p1, .slice s1, .slice (sliceOf "a-s1" []), .delPod "n1" "p1", .pod p2r, .slice s1r] := by
   decide +kernel
 
 theorem ip_reuse_example :
@@ -97,8 +97,8 @@ theorem ip_reuse_example :
 /-- label edit on a ready pod selected by the service: `recomputeServiceForPod` rebuilds the slices -/
 def p1v2 : Pod := pod "p1" "10.0.0.1" true [("app", "a"), ("version", "v2")] "sa1" ""
 
-example : AllGood {} [] [.svc svcA, .pod p1, .slice s1, .pod p1v2] := by decide +kernel
-example : AllGood {} [] [.pod p1, .slice s1, .svc svcA, .pod p1v2] := by decide +kernel
+example : AllGood {} [] [] [.svc svcA, .pod p1, .slice s1, .pod p1v2] := by decide +kernel
+example : AllGood {} [] [] [.pod p1, .slice s1, .svc svcA, .pod p1v2] := by decide +kernel
 
 theorem label_edit_example :
     viewAfter [.svc svcA, .pod p1, .slice s1, .pod p1v2] = viewCold [.svc svcA, .pod p1v2, .slice s1] ∧
@@ -109,7 +109,7 @@ theorem label_edit_example :
 def s1both : Slice := sliceOf "a-s1" [ep "10.0.0.1" true false "p1", ep "10.0.0.2" true false "p2"]
 def s2 : Slice := sliceOf "a-s2" [ep "10.0.0.2" true false "p2"]
 
-example : AllGood {} [] [.svc svcA, .pod p1, .pod p2, .slice s1both, .slice s2, .slice s1] := by decide +kernel
+example : AllGood {} [] [] [.svc svcA, .pod p1, .pod p2, .slice s1both, .slice s2, .slice s1] := by decide +kernel
 
 theorem address_moves_between_slices_example :
     (viewAfter [.svc svcA, .pod p1, .pod p2, .slice s1both, .slice s2, .slice s1]).map (·.eps.map (·.addr)) =
@@ -126,7 +126,7 @@ def opsB : List Op := [.pod p2, .pod p1, .slice s1, .slice s1both, .svc svcA]
 
 theorem order_independent_example : ViewAgree (viewAfter opsA) (viewAfter opsB) :=
   order_independent opsA opsB host (by decide +kernel) (by decide +kernel) (by decide +kernel) (by decide +kernel)
-    (sameObjects_of_b (by decide +kernel)) (by decide +kernel) (by decide +kernel) (by decide +kernel)
+    (by decide +kernel) (by decide +kernel) (sameObjects_of_b (by decide +kernel)) (by decide +kernel) (by decide +kernel) (by decide +kernel)
     (by decide +kernel) (by decide +kernel) (by decide +kernel) (by decide +kernel)
 
 /-- `any_order_eq_cold_start` applies: the history `opsB` (pods, slices, then the Service) against the
@@ -135,7 +135,7 @@ theorem order_independent_example : ViewAgree (viewAfter opsA) (viewAfter opsB) 
 def coldObjs : List Op := [.svc svcA, .slice s1both, .pod p2, .pod p1]
 
 theorem any_order_eq_cold_start_example : ViewAgree (viewAfter opsB) (viewCold coldObjs) :=
-  any_order_eq_cold_start opsB coldObjs host (by decide +kernel) (by decide +kernel) (by decide +kernel)
+  any_order_eq_cold_start opsB coldObjs host (by decide +kernel) (by decide +kernel) (by decide +kernel) (by decide +kernel)
     (by decide +kernel) (by decide +kernel) (sameObjects_of_b (by decide +kernel)) (by decide +kernel)
     (by decide +kernel) (by decide +kernel) (by decide +kernel)
 
@@ -152,23 +152,47 @@ def nodeK1' : Node := { name := "k1", region := "r1", zone := "z1" }
 def p1pending : Pod := { p1 with ip := "", node := "", phase := "P", ready := false }
 def p1bound : Pod := { p1 with node := "k1" }
 
-example : AllGood {} [] [.svc svcA, .node nodeK1', .pod p1pending, .pod { p1bound with ready := false }, .pod p1bound,
+example : AllGood {} [] [] [.svc svcA, .node nodeK1', .pod p1pending, .pod { p1bound with ready := false }, .pod p1bound,
     .slice s1] ∧
-    staleRun {} [] [.svc svcA, .node nodeK1', .pod p1pending, .pod { p1bound with ready := false }, .pod p1bound, .slice s1] = [] := by
+    staleRun {} [] [] [.svc svcA, .node nodeK1', .pod p1pending, .pod { p1bound with ready := false }, .pod p1bound, .slice s1] = [] := by
+  decide +kernel
+
+/-- the headline case as it happens: the slice is handled FIRST, then the pod's first event arrives - Pending,
+    without IP and node -, then the pod is bound to a node, then it gets its IP (the event that replays the
+    slice), then it turns ready.  Every step is good; the slice waits in between and nothing waits at the end;
+    the view is the cold start's. -/
+def p1notReady : Pod := { p1bound with ready := false }
+def s1nr' : Slice := sliceOf "a-s1" [ep "10.0.0.1" false false "p1"]
+
+example : AllGood {} [] [] [.svc svcA, .node nodeK1', .slice s1nr', .pod p1pending, .pod { p1pending with node := "k1" },
+      .pod p1notReady, .pod p1bound, .slice s1] ∧
+    waitRun {} [] [] [.svc svcA, .node nodeK1', .slice s1nr', .pod p1pending] = [(("n1", "a-s1"), ("n1", "p1"))] ∧
+    waitRun {} [] [] [.svc svcA, .node nodeK1', .slice s1nr', .pod p1pending, .pod { p1pending with node := "k1" },
+      .pod p1notReady] = [] ∧
+    staleRun {} [] [] [.svc svcA, .node nodeK1', .slice s1nr', .pod p1pending, .pod { p1pending with node := "k1" },
+      .pod p1notReady, .pod p1bound, .slice s1] = [] ∧
+    viewAfter [.svc svcA, .node nodeK1', .slice s1nr', .pod p1pending, .pod { p1pending with node := "k1" },
+      .pod p1notReady, .pod p1bound, .slice s1] = viewCold [.node nodeK1', .svc svcA, .pod p1bound, .slice s1] := by
+  decide +kernel
+
+/-- the pod's IP changes while it is ready: `addPod` moves the key in `podsByIP` / `ipByPods` -/
+example : AllGood {} [] [] [.svc svcA, .pod p1, .pod { p1 with ip := "10.0.0.9" }] ∧
+    (run {} [.svc svcA, .pod p1, .pod { p1 with ip := "10.0.0.9" }]).c.byIP = [("10.0.0.9", ["n1/p1"])] ∧
+    (run {} [.svc svcA, .pod p1, .pod { p1 with ip := "10.0.0.9" }]).c.ipBy = [("n1/p1", "10.0.0.9")] := by
   decide +kernel
 
 /-- the causal Kubernetes order at the end of a pod: the Pod is deleted, THEN the slice controller
     drops the endpoint.  The slice is stale in between and clean afterwards. -/
-example : AllGood {} [] [.svc svcA, .pod p1, .slice s1, .delPod "n1" "p1", .slice (sliceOf "a-s1" [])] ∧
-    staleRun {} [] [.svc svcA, .pod p1, .slice s1, .delPod "n1" "p1"] = [("n1", "a-s1")] ∧
-    staleRun {} [] [.svc svcA, .pod p1, .slice s1, .delPod "n1" "p1", .slice (sliceOf "a-s1" [])] = [] := by
+example : AllGood {} [] [] [.svc svcA, .pod p1, .slice s1, .delPod "n1" "p1", .slice (sliceOf "a-s1" [])] ∧
+    staleRun {} [] [] [.svc svcA, .pod p1, .slice s1, .delPod "n1" "p1"] = [("n1", "a-s1")] ∧
+    staleRun {} [] [] [.svc svcA, .pod p1, .slice s1, .delPod "n1" "p1", .slice (sliceOf "a-s1" [])] = [] := by
   decide +kernel
 
 /-- eviction: the pod turns Failed (the informer's field selector makes that a DELETE carrying the new
     object, IP stripped), then the slice controller drops the endpoint -/
-example : AllGood {} [] [.svc svcA, .pod p1, .slice s1, .pod { p1 with phase := "F", ip := "", ready := false },
+example : AllGood {} [] [] [.svc svcA, .pod p1, .slice s1, .pod { p1 with phase := "F", ip := "", ready := false },
       .slice (sliceOf "a-s1" [])] ∧
-    staleRun {} [] [.svc svcA, .pod p1, .slice s1, .pod { p1 with phase := "F", ip := "", ready := false },
+    staleRun {} [] [] [.svc svcA, .pod p1, .slice s1, .pod { p1 with phase := "F", ip := "", ready := false },
       .slice (sliceOf "a-s1" [])] = [] ∧
     (run {} [.svc svcA, .pod p1, .slice s1, .pod { p1 with phase := "F", ip := "", ready := false }]).c.byIP = [] := by
   decide +kernel
@@ -186,7 +210,7 @@ theorem conflicting_duplicates_example :
     viewAfter [.svc svcA, .pod p1, .slice s2dup, .slice s1] = viewAfter [.svc svcA, .pod p1, .slice s1, .slice s2dup] ∧
     viewAfter [.svc svcA, .pod p1, .slice s2dup, .slice s1] = viewCold [.svc svcA, .pod p1, .slice s2dup, .slice s1] ∧
     derive (run {} [.svc svcA, .pod p1, .slice s2dup, .slice s1]).c host = viewAfter [.svc svcA, .pod p1, .slice s2dup, .slice s1] ∧
-    AllGood {} [] [.svc svcA, .pod p1, .slice s2dup, .slice s1] := by
+    AllGood {} [] [] [.svc svcA, .pod p1, .slice s2dup, .slice s1] := by
   decide +kernel
 
 /-- the two stores differ as lists (order of first arrival) -/
@@ -286,17 +310,17 @@ theorem needResync_stale_registration_witness :
       [("10.0.0.1", ["n1/a-s1"])] ∧
     parkedAddrs (run {} [.svc svcA, .pod p2, .slice s1, .slice (sliceOf "a-s1" [ep "10.0.0.1" true false "p2"])]).c.pods
       (sliceOf "a-s1" [ep "10.0.0.1" true false "p2"]) = [] ∧
-    ¬ AllGood {} [] [.svc svcA, .pod p2, .slice s1, .slice (sliceOf "a-s1" [ep "10.0.0.1" true false "p2"])] := by
+    ¬ AllGood {} [] [] [.svc svcA, .pod p2, .slice s1, .slice (sliceOf "a-s1" [ep "10.0.0.1" true false "p2"])] := by
   decide +kernel
 
 /-- each witness history violates exactly the clause of `GoodStep` that names its class -/
-example : ¬ AllGood {} [] [.slice termEp, .pod p1term, .svc svcA] := by decide +kernel
-example : ¬ AllGood {} [] [.svc svcA, .pod (p1nr [("app", "a"), ("version", "v1")]), .slice s1nr,
+example : ¬ AllGood {} [] [] [.slice termEp, .pod p1term, .svc svcA] := by decide +kernel
+example : ¬ AllGood {} [] [] [.svc svcA, .pod (p1nr [("app", "a"), ("version", "v1")]), .slice s1nr,
     .pod (p1nr [("app", "a"), ("version", "v2")])] := by decide +kernel
-example : ¬ AllGood {} [] [.svc svcA, .pod p1k, .slice s1, .node nodeK1] := by decide +kernel
+example : ¬ AllGood {} [] [] [.svc svcA, .pod p1k, .slice s1, .node nodeK1] := by decide +kernel
 /-- a deleted pod's endpoint is kept only while the slice is stale: the history is good, the stale set is not empty -/
-example : AllGood {} [] [.svc svcA, .pod p1, .slice s1, .delPod "n1" "p1"] ∧
-    staleRun {} [] [.svc svcA, .pod p1, .slice s1, .delPod "n1" "p1"] ≠ [] := by decide +kernel
-example : ¬ AllGood {} [] [.svc svcA, .slice s1, .pod { p1 with ip := "10.0.0.2" }] := by decide +kernel
+example : AllGood {} [] [] [.svc svcA, .pod p1, .slice s1, .delPod "n1" "p1"] ∧
+    staleRun {} [] [] [.svc svcA, .pod p1, .slice s1, .delPod "n1" "p1"] ≠ [] := by decide +kernel
+example : ¬ AllGood {} [] [] [.svc svcA, .slice s1, .pod { p1 with ip := "10.0.0.2" }] := by decide +kernel
 
 end IstioModel.C15
